@@ -225,6 +225,8 @@ type Probe struct {
 	Do    func()
 	// allowed effects
 	AllowRecoveryReply bool
+	// DupCV is set for a duplicate of a stored ChangeView payload
+	DupCV *vnet.Payload
 }
 
 // Hygiene is the C11 no-effect monitor. The check injects probes through
@@ -272,6 +274,21 @@ func (m *Hygiene) Event(c *vnet.Cluster, e *vnet.Event) {
 // Inject runs probe p on node n and judges its effect.
 func (m *Hygiene) Inject(c *vnet.Cluster, n *vnet.Node, p Probe) {
 	before := Fingerprint(n)
+	// A stored ChangeView whose re-delivery finds M requests for its view already in the
+	// table (collected while only higher views were being counted) completes that quorum:
+	// recorded finding, see KNOWN_FINDINGS.txt. Everything else about duplicates is judged
+	// as usual.
+	latent := false
+	if p.DupCV != nil {
+		nv := p.DupCV.Body.(*vnet.ChView).NewView
+		cnt := 0
+		for _, cp := range n.D.ChangeViewPayloads {
+			if q := payloadOf(cp); q != nil && q.Body.(*vnet.ChView).NewView >= nv {
+				cnt++
+			}
+		}
+		latent = nv > n.D.ViewNumber && cnt >= mOf(len(n.D.Validators)) && !n.D.CommitSent() && !n.D.PreCommitSent()
+	}
 	m.active, m.sends, m.timer = n, nil, 0
 	p.Do()
 	m.active = nil
@@ -280,6 +297,12 @@ func (m *Hygiene) Inject(c *vnet.Cluster, n *vnet.Node, p Probe) {
 	}
 	after := Fingerprint(n)
 	m.inc("probes:" + p.Class)
+	if latent {
+		if before.Core != after.Core {
+			m.fail(c, "duplicate-changeview-completes-latent-quorum", "n%d at (%d,%d): re-delivery of stored [%s] made the node change view: M change-view requests for that view were already held but had only been counted for higher views", n.ID, n.D.BlockIndex, n.D.ViewNumber, p.DupCV.Short())
+		}
+		return
+	}
 	if before.Core != after.Core {
 		m.fail(c, "inadmissible-input-changed-state:"+p.Class, "n%d at (%d,%d): %s changed the state: %s", n.ID, n.D.BlockIndex, n.D.ViewNumber, p.Class, firstDiff(before.Core, after.Core))
 	}
